@@ -631,9 +631,10 @@ class unyt_array(np.ndarray):
             if dtype is None:
                 dtype = input_array.dtype
             obj = input_array.view(type=cls, dtype=dtype)
+            if registry is not None and registry is not input_units.registry:
+                # do not rebind the caller's Unit object to another registry
+                input_units = Unit(str(input_units), registry=registry)
             obj.units = input_units
-            if registry is not None:
-                obj.units.registry = registry
             obj.name = name
             return obj
         if isinstance(input_array, unyt_array):
